@@ -205,16 +205,18 @@ def run_selection(run, case, p, R, unit, delta, rel_tol, all_pairs, exact, via):
         poses = np.stack(poses)  # the pose sequence handed over as one N x 4 x 4 array
     snapshot = [P.copy() for P in poses]
     U = {"f": Unit.frames, "m": Unit.meters, "r": Unit.radians, "d": Unit.degrees}[unit]
+    # the mode flag as callers spell it: Python bool, numpy bool (result of a comparison), 0 / 1
+    flag = [bool(all_pairs), np.bool_(all_pairs), int(all_pairs)][(n + int(delta * 3)) % 3]
     with core.quiet():
         if via == "metrics":
-            out = contracts.outcome_of(metrics.id_pairs_from_delta, poses, delta, U, rel_tol, all_pairs)
+            out = contracts.outcome_of(metrics.id_pairs_from_delta, poses, delta, U, rel_tol, flag)
         elif unit == "f":
-            out = contracts.outcome_of(filters.filter_pairs_by_index, poses, int(delta), all_pairs)
+            out = contracts.outcome_of(filters.filter_pairs_by_index, poses, int(delta), flag)
         elif unit == "m":
-            out = contracts.outcome_of(filters.filter_pairs_by_path, poses, delta, delta * rel_tol, all_pairs)
+            out = contracts.outcome_of(filters.filter_pairs_by_path, poses, delta, delta * rel_tol, flag)
         else:
             out = contracts.outcome_of(filters.filter_pairs_by_angle, poses, delta, delta * rel_tol,
-                                       unit == "d", all_pairs)
+                                       unit == "d", flag)
     run.check(all(np.array_equal(a, b) for a, b in zip(snapshot, poses)), "poses unmodified", case,
               "pair selection modified the pose list", key="pairs:input-modified")
     label = "%s %s" % ({"f": "frames", "m": "meters", "r": "radians", "d": "degrees"}[unit],
